@@ -68,6 +68,7 @@ impl C03Search {
         let doc: Vec<char> = match base {
             0..=2 => self.docs.chars[rng.usize_below(self.docs.chars.len())].1.clone(),
             3..=6 if rng.chance(1, 100) => { let target = if rng.chance(1, 10) { rng.urange(self.max_items, self.max_items * 8) } else { rng.urange(2000, self.max_items) }; super::docgen::gen_big_doc(&mut rng, target) }
+            3..=6 if rng.chance(1, 40) => { let depth = *rng.pick(&[20usize, 63, 64, 65, 66, 100, 127, 128, 129, 200, 255, 256, 257, 300, 1000]); super::docgen::gen_spine_doc(&mut rng, depth) }
             3..=6 => { let big = rng.chance(1, 40); let mut k = Knobs::draw(&mut rng, if big { self.max_items } else { 100 }); k.anomalies = rng.chance(1, 2); if rng.chance(1, 10) { k.max_depth = 64; k.container_bias = 9; k.max_fanout = 1; } gen_doc(&mut rng, &k) }
             7 | 8 => { let n = rng.urange(0, 24); gen_soup(&mut rng, n) }
             _ => { let n = rng.urange(0, 16); (0..n).map(|_| char::from_u32(rng.below(0x11_0000) as u32).unwrap_or('\u{fffd}')).collect() }
